@@ -41,7 +41,7 @@ ValsMatch(g, st) ==
                     [] OTHER -> TRUE
 
 Matches(g, st) ==
-    IF IsEmpty(g) THEN Req("empty", st.fam = "empty")
+    IF IsEmpty(g) THEN Req("empty", st.fam = "empty") /\ Req("empty-carries-nothing", ~Has(st, "residue") \/ ~st.residue)
     ELSE /\ Req("meta", st.fam = g.fam /\ st.dims = g.dims /\ st.outs = g.outs)
          /\ Req("order", g.fam \in {"localp", "wavelet"} => st.order = g.order)
          /\ Req("pts-sorted", IsSortedSeq(st.pts))
